@@ -126,6 +126,12 @@ where
         wrap(|| Ok((self.write)(self.env.borrow_mut().last_access_mut()?)?))
     }
 
+    fn visit_array_pop_expr(&mut self, _: &ArrayPopExpr) -> visit::Result<Self> {
+        // what a roll yields is a temporary, like the result of a call: there is nothing to write
+        // to (the default method would pass the write on to the roll's own operand)
+        wrap(not_writable_error)
+    }
+
     fn visit_variable_name(&mut self, n: WithRange<&VariableName>) -> visit::Result<Self> {
         wrap(|| {
             let mut e = self.env.borrow_mut();
